@@ -10,6 +10,14 @@ from simnet import proto, scen, tunnelscn
 from simnet.scen import US
 
 
+def _key(frame):
+    """The 4 bytes in front of the IP packet are the tun driver's framing (00 00 08 00 on Linux, an address family or zeros on
+    the BSDs, nothing on some); every build's write_tun() sets its own there.  Identity is judged on the packet behind them
+    (and thereby on the total length)."""
+    frame = bytes(frame)
+    return frame[4:] if len(frame) >= 4 else frame
+
+
 def integrity_violations(k, own_ip=None):
     """Offline monitor over the event log: returns (violations, stats).  own_ip: process name -> its tunnel address."""
     import socket
@@ -22,11 +30,11 @@ def integrity_violations(k, own_ip=None):
         kind = ev[1]
         if kind == "tun_read":
             stats["tun_reads"] += 1
-            reads.setdefault(ev[3]["data"], set()).add(ev[2])
+            reads.setdefault(_key(ev[3]["data"]), set()).add(ev[2])
         elif kind == "tun_write":
             stats["tun_writes"] += 1
             w = ev[3]["data"]
-            src = reads.get(w)
+            src = reads.get(_key(w))
             if not src:
                 viol.append((ev[0], ev[2], w))
             else:
@@ -85,6 +93,9 @@ def scn(params):
                 # beyond every MTU iodine would configure: a tun device hands over whatever it is given
                 sizes = [4091, 4092, 4093, 4096, 4100, 6000, 9000, 20000, 65000]
             fr = tunnelscn.pick_frame(t, rng, side, (params["idx"] << 20) | ident, ci, sizes, to_client)
+            if rng.random() < 0.12 and len(fr) >= 4:
+                # what a peer built for another operating system reads from its tun in front of the packet
+                fr = rng.choice([b"\0\0\0\0", b"\0\0\0\x02", b"\0\0\x86\xdd", bytes(rng.getrandbits(8) for _ in range(4))]) + fr[4:]
             k.at(tt, k.offer_tun, "srv" if side == "srv" else t.clients[ci].name, fr, ident)
             ident += 1
             tt += rng.choice([20000, 100000, 300000, 700000, 1500000])
